@@ -36,6 +36,9 @@ func SplitRawStatements(filepath, s string) ([]*RawStatement, error) {
 				return nil, err
 			}
 			firstPos = lex.Token.Pos
+			if len(lex.Token.Comments) > 0 {
+				firstPos = lex.Token.Comments[0].Pos
+			}
 			continue
 		}
 
